@@ -48,13 +48,12 @@ impl<'a> DataRowIteratorTestData<'a> {
     spec fn exp_signal(&self, i: int) -> Signal { self.signals@[index_signal(self.expected_indices@[i]) as int] }
 
     /// output_indices describes the layout `outs` (the driver's first answer) for this test (C03):
-    /// virtual signals carry their expression; every other expected signal points at the FIRST position whose
-    /// signal equals it, or at nothing when the driver does not supply it
+    /// virtual signals carry their expression; every other expected signal points at a position whose signal
+    /// equals it (which one, if the driver lists a signal twice, is not the statement's business), or at nothing when the driver does not supply it
     spec fn outidx_ok(&self, oi: Seq<OutputEntryIndex<'a>>, outs: Seq<OutS>) -> bool {
         oi.len() == self.expected_indices@.len() && forall|i: int| 0 <= i < oi.len() ==> match #[trigger] oi[i] {
             OutputEntryIndex::Virtual(e) => self.exp_signal(i).typ matches SignalType::Virtual { expr } && *e == *expr.expr,
-            OutputEntryIndex::Output(n) => !(self.exp_signal(i).typ is Virtual) && n < outs.len() && outs[n as int].signal == self.exp_signal(i)
-                && (forall|m: int| 0 <= m < n ==> (#[trigger] outs[m]).signal != self.exp_signal(i)),
+            OutputEntryIndex::Output(n) => !(self.exp_signal(i).typ is Virtual) && n < outs.len() && outs[n as int].signal == self.exp_signal(i),
             OutputEntryIndex::None => !(self.exp_signal(i).typ is Virtual) && (forall|m: int| 0 <= m < outs.len() ==> (#[trigger] outs[m]).signal != self.exp_signal(i)),
         }
     }
